@@ -29,13 +29,23 @@ Semantics of the subset (the translator's conventions; value-preserving in exact
     `SrcLib.ltTop` / `SrcLib.gtBot`; using it where a finite number is needed raises (the table's error);
   * `int` values are `Int`, lengths and indices `Nat`; an `int` in float arithmetic is cast (`(n : α)`).
 The TARGETS table (which region is read, binders, the attribute -> field map, which callee is which definition, the
-statements and proofs of the obligations) is fixed here and reviewed by hand; the definitions' bodies come from the source.
+statements and proofs of the obligations, the reviewed skeleton texts) is fixed here and reviewed by hand; the definitions'
+bodies come from the source.
 An unrecognised source gives `def srcShape_<f> : Bool := false` and the broken obligation `srcShape_<f>_recognised`.
+
+What the translation does not read is pinned as text (see py2lean.py, "WHAT AN EDIT OF /repo DOES"): the function around a
+region (`srcSkeleton_<f>`; for the matrix regions of bottleneck / wasserstein also everything AFTER the region up to the end of
+the function, `srcSkeletonAfter_<f>`: the bisection with its oracle call, `linear_sum_assignment`, the extraction of the
+matching; for `compute_landscape` the whole method around the midpoint and the two ramp loops, the descending sort included),
+decorators / parameters / defaults (`srcSignature_<function>`), module- and class-level bindings of the names and `self.<attr>`
+used (`srcBindings_<file>`).  A target with `region="pin"` translates nothing and pins the whole body (the constructor of
+`PersLandscapeExact`, whose conversion to float is the identity of the models).
 """
 import ast, copy, os, re
 from fractions import Fraction
 
 from .py2lean import Shape, LEAN_RESERVED, dotted, lean_str, rat, unparse_with_holes, strip_doc, read_defaults, GEN
+from .py2lean import bindings_section, render_signature, signature_text, sanitize, not_translated, not_translated_comment
 
 
 # ----------------------------------------------------------------------------- types
@@ -1822,7 +1832,7 @@ def translate_matrix(src, fns, cfg):
     if fn is None:
         raise Shape("function %s not found" % cfg["func"])
     check_signature(cfg, fn)
-    stmts, skeleton = find_region(cfg, fn)
+    stmts, skeleton, after = find_region(cfg, fn)
     mt = MatTr(src, cfg)
     for st in stmts:
         mt.stmt(st)
@@ -1831,7 +1841,7 @@ def translate_matrix(src, fns, cfg):
     sig = " ".join("(%s : %s)" % (n, t) for n, t in cfg.get("fparams", []))
     text = "def %s %s(S T : List (α × α)) (i j : Nat) : %s :=\n%s" % (cfg["lean"], sig + " " if sig else "", cfg["result"],
                                                                         mt.entry_text())
-    out = {"defs": [text], "skeleton": skeleton, "defaults": None, "booldefaults": None}
+    out = {"defs": [text], "skeleton": skeleton, "skeleton_after": after, "defaults": None, "booldefaults": None}
     return out
 
 
@@ -1857,17 +1867,19 @@ def index_source(tree):
 
 
 def find_region(cfg, fn):
-    """-> (statements, skeleton text or None)"""
+    """-> (statements, skeleton text or None, text of what follows the region or None)"""
     body = strip_doc(fn.body)
     region = cfg.get("region", "function")
     if region == "function":
-        return body, None
+        return body, None, None
+    if region == "pin":                           # nothing is translated: the whole body is pinned as text
+        return [], ast.unparse(ast.Module(body=body, type_ignores=[])), None
     if region == "tail_from":                     # from the statement whose text is cfg['from_stmt'] to the end
         hits = [i for i, s in enumerate(body) if ast.unparse(s) == cfg["from_stmt"]]
         if len(hits) != 1:
             raise Shape("expected exactly one statement `%s` in %s" % (cfg["from_stmt"], fn.name))
         picked = body[hits[0]:]
-        return picked, unparse_with_holes(body, {id(s) for s in picked}, collapse=True)
+        return picked, unparse_with_holes(body, {id(s) for s in picked}, collapse=True), None
     if region == "range_in":                      # consecutive statements first..last (texts of their first lines) at any depth
         allst = [n for n in ast.walk(fn) if isinstance(n, ast.stmt)]
         for holder in ast.walk(fn):
@@ -1876,6 +1888,9 @@ def find_region(cfg, fn):
                 if not isinstance(seq, list):
                     continue
                 heads = [ast.unparse(s).split("\n")[0] for s in seq]
+                if isinstance(cfg["first"], tuple):          # ("assign", name): the first statement is `name = <anything>`
+                    heads = [cfg["first"] if isinstance(s, ast.Assign) and len(s.targets) == 1 and isinstance(s.targets[0], ast.Name)
+                             and s.targets[0].id == cfg["first"][1] else h for s, h in zip(seq, heads)]
                 for i, h in enumerate(heads):
                     if h == cfg["first"] and cfg["last"] in heads[i:]:
                         j = i + heads[i:].index(cfg["last"])
@@ -1883,12 +1898,14 @@ def find_region(cfg, fn):
                         if len(picked) != cfg["count"]:
                             raise Shape("the region %r … %r of %s has %d statements, expected %d"
                                         % (cfg["first"], cfg["last"], fn.name, len(picked), cfg["count"]))
-                        if cfg.get("skeleton_mode") == "before":      # only what prepares the region's inputs
+                        if cfg.get("skeleton_mode") == "before":      # what prepares the region's inputs / what consumes its result
                             if holder is not fn:
                                 raise Shape("the region of %s is not at the top level of the function" % fn.name)
                             k0 = [id(x) for x in body].index(id(picked[0]))
-                            return list(picked), unparse_with_holes(body[:k0 + len(picked)], {id(s) for s in picked}, collapse=True)
-                        return list(picked), unparse_with_holes(body, {id(s) for s in picked}, collapse=True)
+                            holes = {id(s) for s in picked}
+                            return (list(picked), unparse_with_holes(body[:k0 + len(picked)], holes, collapse=True),
+                                    unparse_with_holes(body[k0:], holes, collapse=True))
+                        return list(picked), unparse_with_holes(body, {id(s) for s in picked}, collapse=True), None
         raise Shape("the region %r … %r was not found in %s" % (cfg["first"], cfg["last"], fn.name))
     raise Shape("internal: region %s" % region)
 
@@ -1921,7 +1938,9 @@ def translate(src, fns, classes, cfg):
     if fn is None:
         raise Shape("function %s not found" % cfg["func"])
     check_signature(cfg, fn)
-    stmts, skeleton = find_region(cfg, fn)
+    stmts, skeleton, after = find_region(cfg, fn)
+    if cfg.get("region") == "pin":
+        return {"defs": [], "skeleton": skeleton, "skeleton_after": None, "defaults": None, "booldefaults": None}
     cls = classes.get(cfg["func"].split(".")[0]) if "." in cfg["func"] else None
     aux = []
     tr = StTr(src, cls, cfg, aux, used=[f for f, _ in cfg.get("fparams", [])])
@@ -1965,7 +1984,7 @@ def translate(src, fns, classes, cfg):
     want = {a for a in (cfg.get("state") or {}).get("derived", {})} if cfg.get("expects_derived") else set()
     if want != {a for a, _, _ in tr.derived}:
         raise Shape("derived attributes assigned: %s, expected %s" % (sorted(a for a, _, _ in tr.derived), sorted(want)))
-    out = {"defs": defs, "skeleton": skeleton, "defaults": None, "booldefaults": None}
+    out = {"defs": defs, "skeleton": skeleton, "skeleton_after": after, "defaults": None, "booldefaults": None}
     if cfg.get("defaults"):
         out["defaults"] = read_defaults(src, fn, [n for n, _ in cfg["defaults"]])
     if cfg.get("booldefaults"):
@@ -1982,8 +2001,13 @@ HEADER = (
     "rewritten on every run (%s `pre_build`).\n\n"
     "Each `def` below is the Python source translated STATEMENT BY STATEMENT (`ast`); each `src_…_eq_model` is the obligation\n"
     "that it EQUALS the hand-written model definition of %s, polymorphically over the model's own\n"
-    "core classes.  Any edit of the translated lines changes the generated definition; the obligation (`rfl`, case analysis,\n"
-    "or an induction that relates the generated loop to the model's recursion) then no longer checks (DESIGN.md 3.2/3.3).\n\n"
+    "core classes.  An edit of the translated lines changes the generated definition -- unless it is a renaming of locals or one\n"
+    "of the value-preserving rewrites below -- and the obligation (`rfl`, case analysis, or an induction that relates the generated\n"
+    "loop to the model's recursion) then no longer checks (DESIGN.md 3.2/3.3).  What the translation does not read is pinned as\n"
+    "TEXT (`ast.unparse`; comments and docstrings do not count) against the reviewed text of the translator's tables:\n"
+    "`srcSkeleton_<f>` / `srcSkeletonAfter_<f>` (the function around / after a region), `srcSignature_<function>` (decorators,\n"
+    "parameters, defaults), `srcBindings_<file>` (every module-level binding of every name the translated functions use, and the\n"
+    "class-level bindings of the `self.<attr>` they use: names are resolved by spelling, this is what the spelling stands for).\n\n"
     "Conventions of the translation (the translator's semantics of its Python subset):\n"
     "  * straight-line code is SSA-renamed (`x`, `x_1`, …), every assignment is a `let`;\n"
     "  * `self` is a value of the model's state record: `self._a[k]` reads a field of the current state variable, `self._a = e`\n"
@@ -2002,7 +2026,8 @@ HEADER = (
     "    recursion whose measure Lean checks;\n"
     "  * `np.inf`/`-np.inf` as the start of a running min/max is `none`, comparisons with it are `SrcLib.ltTop/gtBot`;\n"
     "  * Python `int`s are `Int`, lengths/indices `Nat` (a difference of naturals is an `Int`), an int in float arithmetic is cast;\n"
-    "  * `a > b` is written `b < a`; NumPy/Python library calls are the model helpers / parameters named in the text.\n"
+    "  * `a > b` is written `b < a`; in the matrix regions `0.5 * e` is `e / 2` and `e ** 2` is `e * e`; NumPy/Python library\n"
+    "    calls are the model helpers / parameters named in the text.\n"
     "A source outside the subset gives `def srcShape_<f> : Bool := false`, and `srcShape_<f>_recognised` fails.\n"
     "-/\n"
     "set_option linter.unusedVariables false\n"
@@ -2025,16 +2050,28 @@ def render_file(key, root):
             try:
                 src = open(os.path.join(root, path)).read()
                 tree = ast.parse(src)
-                cache[path] = (src,) + index_source(tree) + (None,)
+                cache[path] = (src,) + index_source(tree) + (None, tree)
             except (OSError, SyntaxError) as e:
-                cache[path] = ("", {}, {}, "%s: %s" % (type(e).__name__, e))
+                cache[path] = ("", {}, {}, "%s: %s" % (type(e).__name__, e), None)
         return cache[path]
+    # what the spelling of the names stands for: the bindings of the names the translated functions use, per Python file
+    paths = []
+    for cfg in TARGETS:
+        if cfg["file"] == key and cfg.get("pyfile", py) not in paths:
+            paths.append(cfg.get("pyfile", py))
+    for path in paths:
+        src, fns, classes, err, tree = load(path)
+        bkey = key if path == py else "%s_%s" % (key, sanitize(os.path.splitext(os.path.basename(path))[0]))
+        fl = [(c["func"], fns.get(c["func"]), classes.get(c["func"].split(".")[0]) if "." in c["func"] else None)
+              for c in TARGETS if c["file"] == key and c.get("pyfile", py) == path]
+        o.append(bindings_section(bkey, tree, fl, _base.BINDINGS.get(bkey), err, info))
+    signed = set()
     for cfg in TARGETS:
         if cfg["file"] != key:
             continue
         f = cfg["lean"]
         path = cfg.get("pyfile", py)
-        src, fns, classes, err = load(path)
+        src, fns, classes, err, tree = load(path)
         o.append("/-! ### `%s`  (from `%s` of %s%s) -/" % (f, cfg["func"], path,
                  "" if cfg.get("region", "function") == "function" else ", region: " + cfg["region"].replace("_", " ")))
         o.append("section")
@@ -2064,10 +2101,22 @@ def render_file(key, root):
             o.append("theorem %s%s :\n    %s := %s\n" % (name, (" " + binders) if binders else "", stmt, proof))
             names.append(name)
         if cfg.get("skeleton") is not None:
-            o.append("/-- the function around the translated region (`...`), as `ast.unparse` prints it -/")
+            o.append("/-- the body of the function, as `ast.unparse` prints it (nothing of it is translated: the conversion to float at its "
+                     "entry is the identity of the exact-arithmetic models) -/" if cfg.get("region") == "pin" else
+                     "/-- the function around the translated region (`...`), as `ast.unparse` prints it -/")
             o.append("def srcSkeleton_%s : String :=\n  %s" % (f, lean_str(res["skeleton"] or "")))
             o.append("theorem src_%s_skeleton : srcSkeleton_%s =\n  %s := rfl\n" % (f, f, lean_str(cfg["skeleton"])))
             names.append("src_%s_skeleton" % f)
+        if cfg.get("skeleton_after") is not None:
+            o.append("/-- the function from the translated region (`...`) to its end, as `ast.unparse` prints it: what consumes the "
+                     "region's result -/")
+            o.append("def srcSkeletonAfter_%s : String :=\n  %s" % (f, lean_str(res["skeleton_after"] or "")))
+            o.append("theorem src_%s_skeleton_after : srcSkeletonAfter_%s =\n  %s := rfl\n" % (f, f, lean_str(cfg["skeleton_after"])))
+            names.append("src_%s_skeleton_after" % f)
+        if (path, cfg["func"]) not in signed:           # once per Python function: decorators, parameters, defaults
+            signed.add((path, cfg["func"]))
+            o.append(render_signature(cfg["func"], signature_text(fns[cfg["func"]]), _base.SIGNATURES.get((key, cfg["func"]), "")))
+            names.append("src_%s_signature" % sanitize(cfg["func"]))
         if cfg.get("defaults"):
             o.append("/-- numeric keyword defaults of `%s`, as written in the source -/" % cfg["func"])
             o.append("def srcDefaults_%s : List (String × Rat) :=\n  [%s]" % (
@@ -2084,6 +2133,13 @@ def render_file(key, root):
             names.append("src_%s_booldefaults" % f)
         o.append("end\n")
         info["functions"][f] = {"obligations": names}
+    nt = {}
+    for path in paths:
+        src, fns, classes, err, tree = load(path)
+        if tree is not None:
+            nt[path] = not_translated(path, tree, _base.all_target_functions(path))
+    info["not_translated"] = nt
+    o.append(not_translated_comment(sorted(nt.items())))
     o.append("end %s\n" % ns)
     return "\n".join(o), info
 
@@ -2344,6 +2400,27 @@ TARGETS += [
                     "lengths as naturals")]),
 ]
 
+# ---- persim/landscapes/exact.py : the constructor of the landscapes the arithmetic works on (pinned as text, nothing translated)
+# `np.asarray(dgms[self.hom_deg], dtype=float)` is /repo fix 56d4899 (narrow integer diagrams wrapped around in the midpoints):
+# the models take real coordinates, so the conversion is the identity there and can only be pinned as text.
+EXACT_INIT_TEXT = (
+    'super().__init__(dgms=dgms, hom_deg=hom_deg)\n'
+    'self.critical_pairs = critical_pairs\n'
+    'if dgms:\n'
+    '    self.dgms = np.asarray(dgms[self.hom_deg], dtype=float)\n'
+    'else:\n'
+    '    self.dgms = dgms\n'
+    'if not dgms and (not critical_pairs):\n'
+    "    raise ValueError('dgms and critical_pairs cannot both be empty')\n"
+    'self.max_depth = len(self.critical_pairs)\n'
+    'if compute:\n'
+    '    self.compute_landscape()')
+
+TARGETS += [
+    dict(file="plarith", variables="", func="PersLandscapeExact.__init__", pyfile="persim/landscapes/exact.py", lean="exact_init",
+         region="pin", pyparams=["self", "dgms", "hom_deg", "critical_pairs", "compute"], skeleton=EXACT_INIT_TEXT, obligations=[]),
+]
+
 # ---- persim/gromov_hausdorff.py  ->  Model/Graph.lean (C17)
 IT = Named("IntType")
 DM = Named("DMat")
@@ -2392,13 +2469,48 @@ APX_VARS = ("[Add α] [Sub α] [Mul α] [Div α] [Neg α] [Zero α] [NatCast α]
             "  [DecidableLT α] [LE α] [DecidableLE α] [Max α] [Min α] [DecidableEq α]")
 ODGM = Lst(Pair(OA, OA))
 APX = dict(file="approx", variables=APX_VARS, err="Err", local_types={"j": N})
-APX_SKELETON = None      # filled below from the source text it was reviewed against
+# `compute_landscape` around the translated statements (`...` = the midpoint and the two ramp loops of one bar): the early
+# exit, the grid (`np.linspace(..., retstep=True)`), snapping, the index dictionary, the empty lists, the loop header and the
+# two index look-ups; after the bars the DESCENDING sort of every `W[i]`, `K`, the zero matrix, the transposition `L[k][i] =
+# W[i][k]`, the zero row for an invisible diagram.  Modelled by hand in Model/Approx.lean (`linspace`, `gridIndex`, `rampsW`,
+# `valuesOfW`); this text is what that model was written against.
+APX_SKELETON = (
+    'verboseprint = print if verbose else lambda *a, **k: None\n'
+    'if self.values.size:\n'
+    "    verboseprint('values was stored, exiting')\n"
+    '    return\n'
+    "verboseprint('values was empty, computing values')\n"
+    'grid_values, step = np.linspace(self.start, self.stop, self.num_steps, retstep=True)\n'
+    'bd_pairs = self.dgms\n'
+    'bd_pairs_grid = ndsnap_regular(bd_pairs, *(grid_values, grid_values))\n'
+    'index = list(range(self.num_steps))\n'
+    'dict_grid = dict(zip(grid_values, index))\n'
+    'W = [[] for _ in range(self.num_steps)]\n'
+    'for ind_in_bd_pairs, bd in enumerate(bd_pairs_grid):\n'
+    '    [b, d] = bd\n'
+    '    ind_in_Wb = dict_grid[b]\n'
+    '    ind_in_Wd = dict_grid[d]\n'
+    '    ...\n'
+    'for i in range(len(W)):\n'
+    '    W[i] = sorted(W[i], reverse=True)\n'
+    'K = max([len(_) for _ in W])\n'
+    'L = np.array([np.zeros(self.num_steps) for _ in range(K)])\n'
+    'for i in range(self.num_steps):\n'
+    '    for k in range(len(W[i])):\n'
+    '        L[k][i] = W[i][k]\n'
+    'if not L.size:\n'
+    '    L = np.zeros((1, self.num_steps))\n'
+    "    print('Bad choice of grid, values is empty')\n"
+    'self.values = L\n'
+    'self.max_depth = len(L)\n'
+    'return')
 
 TARGETS += [
     T(APX, func="PersLandscapeApprox.compute_landscape", lean="ramps", region="range_in",
-      first="j = 0", last="for _ in range(mid_pt + 1, ind_in_Wd):", count=4, pyparams=["self", "verbose"],
-      params=[("step", A), ("ind_in_Wb", N), ("ind_in_Wd", N), ("mid_pt", Z), ("W", LLA)],
-      ret=LLA, ret_name="W", result="List (List α)",
+      first=("assign", "mid_pt"), last="for _ in range(mid_pt + 1, ind_in_Wd):", count=5,
+      pyparams=["self", "verbose"],
+      params=[("step", A), ("ind_in_Wb", N), ("ind_in_Wd", N), ("W", LLA)],
+      ret=LLA, ret_name="W", result="List (List α)", skeleton=APX_SKELETON,
       obligations=[("ramps_loop_eq", "(step : α) (ib : Nat) (l : List Nat) (j : Nat) (W : List (List α))",
                     "ramps_loop step ib W j l =\n      (List.range l.length).foldl (fun W t => appendAt W (ib + (j + t + 1)) (((j + t + 1 : Nat) : α) * step)) W",
                     "by\n  induction l generalizing j W with\n  | nil => rfl\n  | cons x l ih =>\n"
@@ -2412,10 +2524,16 @@ TARGETS += [
                     "    simp only [ramps_loop_2, List.length_cons, List.range_succ_eq_map, List.foldl_cons, List.foldl_map, ih, appendAt, hsub]\n"
                     "    simp only [Nat.add_zero, Nat.add_assoc, Nat.add_comm 1]",
                     "the second ramp loop (`W[ind_in_Wd - j]`: the index is an int difference; inside the loop it is the natural one)"),
-                   ("src_ramps_eq_model", "(step : α) (ib id : Nat) (mid : Int) (W : List (List α))",
-                    "ramps step ib id mid W = rampDown step mid id (rampUp step ib mid W)",
-                    "by\n  simp only [ramps, rampUp, rampDown, ramps_loop_eq, ramps_loop_2_eq, List.length_range, Nat.zero_add]",
-                    "the two ramp loops of one bar (`j = 0` before each) are the model's `rampUp` then `rampDown`")]),
+                   ("src_ramps_eq_model", "(step : α) (ib id : Nat) (W : List (List α))",
+                    "ramps step ib id W = rampDown step (midPt ib id) id (rampUp step ib (midPt ib id) W)",
+                    "by\n  simp only [ramps, midPt, rampUp, rampDown, ramps_loop_eq, ramps_loop_2_eq, List.length_range, Nat.zero_add]",
+                    "the midpoint `mid_pt = ind_in_Wb + (ind_in_Wd - ind_in_Wb) // 2` (the model's `midPt`; floor division of ints is "
+                    "`Int` `/`) and the two ramp loops of one bar (`j = 0` before each) are the model's `rampUp` then `rampDown`"),
+                   ("src_ramps_eq_addBar", "(step : α) (grid : List α) (W : List (List α)) (p : α × α)",
+                    "ramps step (gridIndex grid p.1) (gridIndex grid p.2) W = addBar step grid W p",
+                    "by\n  simp only [addBar, src_ramps_eq_model]",
+                    "with the two grid indices of a bar as `ind_in_Wb`, `ind_in_Wd`, the translated statements are the body `addBar` of "
+                    "the model's loop over the bars")]),
     T(APX, func="death_vector", pyfile="persim/landscapes/tools.py", lean="death_vector", pyparams=["dgms", "hom_deg"],
       params=[("dgms", Lst(ODGM)), ("hom_deg", N)], raises=True, ret=Lst(OA), result="Except Err (List (Option α))",
       index_err="Err.homDeg", raises_table={"NotImplementedError": "Err.notImplemented"},
@@ -2434,6 +2552,61 @@ PREP_SKELETON = (
     "        warnings.warn('dgm2 has points with non-finite death times;' + 'ignoring those points')\n        N = T.shape[0]\n"
     "if M == 0:\n    S = np.array([[0, 0]])\n    M = 1\nif N == 0:\n    T = np.array([[0, 0]])\n    N = 1\n...")
 
+# what consumes the matrix: bottleneck's bisection over the sorted distinct entries with Hopcroft-Karp as the oracle and the
+# extraction of the matching; wasserstein's `linear_sum_assignment` and the matching rows.  Modelled by hand (Model/Bottleneck,
+# Model/Wasserstein: `bisect`, `extractRows`, …, the solvers as parameters with contracts); this text is what those models
+# were written against, so a statement inserted between the matrix and the solver, or a changed comparison, is noticed.
+BN_AFTER_SKELETON = (
+    '...\n'
+    'ds = np.sort(np.unique(D.flatten()))\n'
+    'bdist = ds[-1]\n'
+    'matching = {}\n'
+    'while len(ds) >= 1:\n'
+    '    idx = 0\n'
+    '    if len(ds) > 1:\n'
+    '        idx = bisect_left(range(ds.size), int(ds.size / 2))\n'
+    '    d = ds[idx]\n'
+    '    graph = {}\n'
+    '    for i in range(D.shape[0]):\n'
+    "        graph['{}'.format(i)] = {j for j in range(D.shape[1]) if D[i, j] <= d}\n"
+    '    res = HopcroftKarp(graph).maximum_matching()\n'
+    '    if len(res) == 2 * D.shape[0] and d <= bdist:\n'
+    '        bdist = d\n'
+    '        matching = res\n'
+    '        ds = ds[0:idx]\n'
+    '    else:\n'
+    '        ds = ds[idx + 1:]\n'
+    'if return_matching:\n'
+    '    matchidx = []\n'
+    '    for i in range(M + N):\n'
+    "        j = matching['{}'.format(i)]\n"
+    '        d = D[i, j]\n'
+    '        if i < M:\n'
+    '            if j >= N:\n'
+    '                j = -1\n'
+    '        else:\n'
+    '            if j >= N:\n'
+    '                continue\n'
+    '            i = -1\n'
+    '        matchidx.append([i, j, d])\n'
+    '    return (bdist, np.array(matchidx))\n'
+    'else:\n'
+    '    return bdist')
+WS_AFTER_SKELETON = (
+    '...\n'
+    'matchi, matchj = optimize.linear_sum_assignment(D)\n'
+    'matchdist = np.sum(D[matchi, matchj])\n'
+    'if matching:\n'
+    '    matchidx = [(i, j) for i, j in zip(matchi, matchj)]\n'
+    '    ret = np.zeros((len(matchidx), 3))\n'
+    '    ret[:, 0:2] = np.array(matchidx)\n'
+    '    ret[:, 2] = D[matchi, matchj]\n'
+    '    ret[ret[:, 0] >= M, 0] = -1\n'
+    '    ret[ret[:, 1] >= N, 1] = -1\n'
+    '    ret = ret[ret[:, 0] + ret[:, 1] != -2, :]\n'
+    '    return (matchdist, ret)\n'
+    'return matchdist')
+
 TARGETS += [
     dict(file="bottleneck", func="bottleneck", lean="aug_entry", region="range_in", skeleton_mode="before",
          first="Sb, Sd = (S[:, 0], S[:, 1])", last="D[M:, 0:N] = UL", count=13, matrix="D",
@@ -2441,7 +2614,7 @@ TARGETS += [
          variables="[Sub α] [Div α] [Neg α] [Zero α] [OfNat α 2] [Max α] [LE α] [DecidableLE α]",
          result="Ext α", fin=".fin %s", top=".top",
          mcalls={"np.abs": ("fn1", "absM"), "np.maximum": ("fn2", "max"), "np.zeros": ("zeros",)},
-         skeleton="return_matching = matching\n" + PREP_SKELETON,
+         skeleton="return_matching = matching\n" + PREP_SKELETON, skeleton_after=BN_AFTER_SKELETON,
          obligations=[("src_aug_entry_eq_model", "", "aug_entry (α := α) = augD", "rfl",
                        "the block assignments `D[0:M, 0:N] = max(|Sb - Tb|, |Sd - Td|)`, `D[0:M, N::]` / `D[M::, 0:N]` = inf with "
                        "`0.5 * (death - birth)` on the diagonal, zeros elsewhere, read entry by entry: the model's `augD`")]),
@@ -2453,7 +2626,7 @@ TARGETS += [
          mcalls={"np.sqrt": ("fn1", "sqrt"), "np.sum": ("sum_axis2",), "np.zeros": ("zeros",),
                  "np.cos": ("param", "cp", "np.cos(np.pi / 4)"), "np.sin": ("param", "sp", "np.sin(np.pi / 4)"),
                  "np.array": ("array22",)},
-         skeleton=PREP_SKELETON,
+         skeleton=PREP_SKELETON, skeleton_after=WS_AFTER_SKELETON,
          obligations=[("src_aug_entry_eq_model", "", "aug_entry (α := α) = augEntry", "rfl",
                        "`DUL` from the coordinate differences, the rotation by `R = [[cp, -sp], [sp, cp]]`, the three block "
                        "assignments with the rotated second coordinate on the diagonals, read entry by entry: the model's "
